@@ -52,7 +52,9 @@ pub struct Ctx {
 
 impl Ctx {
     pub fn n(&self, quick: u64, thorough: u64) -> u64 {
-        let b = self.tier.pick(quick, thorough) as f64 * self.scale;
+        // the thorough random budgets were sized for a slower harness; 4x keeps a full thorough
+        // run of all properties around two hours on 16 cores
+        let b = self.tier.pick(quick, thorough * 4) as f64 * self.scale;
         (b as u64).max(1)
     }
 }
